@@ -243,3 +243,54 @@ func init() {
 		return call(fr.i, fr, 0, sqlFn(fr, "ScanInto"), []value{args[1], r[0]})
 	}
 }
+
+// ---- model mode: QueryContext / Rows ----
+
+type sqlCursor struct {
+	rows []value // each a []Val (interpreted value)
+	pos  int
+	err  value
+}
+
+func init() {
+	query := func(fr *frame, args []value) value {
+		if !X.SQLModel {
+			panic(abortPath{"unsupported: QueryContext outside SQL model mode"})
+		}
+		r := call(fr.i, fr, 0, sqlFn(fr, "Query"), []value{args[2], args[3]}).(tuple)
+		event("Query:%s", normSQL(args[2]))
+		if e := r[1].(iface); e.t != nil {
+			return tuple{(*value)(nil), e}
+		}
+		rows := zeroPtr(fr.i, "database/sql", "Rows").(*value)
+		if X.sqlCursors == nil {
+			X.sqlCursors = map[*value]*sqlCursor{}
+		}
+		list, _ := r[0].([]value)
+		X.sqlCursors[rows] = &sqlCursor{rows: list, pos: -1}
+		return tuple{rows, iface{}}
+	}
+	symExternals["(*database/sql.Conn).QueryContext"] = query
+	symExternals["(*database/sql.DB).QueryContext"] = query
+	cur := func(args []value) *sqlCursor {
+		c := X.sqlCursors[args[0].(*value)]
+		if c == nil {
+			panic("sql model: unknown Rows")
+		}
+		return c
+	}
+	symExternals["(*database/sql.Rows).Next"] = func(fr *frame, args []value) value {
+		c := cur(args)
+		c.pos++
+		return c.pos < len(c.rows)
+	}
+	symExternals["(*database/sql.Rows).Scan"] = func(fr *frame, args []value) value {
+		c := cur(args)
+		if c.pos < 0 || c.pos >= len(c.rows) {
+			panic("sql model: Scan without Next")
+		}
+		return call(fr.i, fr, 0, sqlFn(fr, "ScanInto"), []value{args[1], c.rows[c.pos]})
+	}
+	symExternals["(*database/sql.Rows).Err"] = func(fr *frame, args []value) value { return iface{} }
+	symExternals["(*database/sql.Rows).Close"] = func(fr *frame, args []value) value { return iface{} }
+}
